@@ -34,6 +34,11 @@ func init() {
 func robustSpecs(e *Env, family string, nComp int, client bool) []PkgSpec {
 	var specs []PkgSpec
 	for i, d := range specgen.KitchenSink() {
+		// (goag's client cannot format a parameter that is an array of arrays and refuses
+		// the spec: with --client the kitchen sink goes without that operation)
+		if client {
+			delete(d.Paths, "/matrix")
+		}
 		specs = append(specs, PkgSpec{Name: fmt.Sprintf("pkitchen%02d", i), Doc: d, Cfg: inproc.Config{DoNotEdit: true, Cors: true, Client: client}, Meta: map[string]any{"origin": "kitchen-sink"}})
 	}
 	skip := map[string]bool{"get_custom_params": true, "custom_type": true, "post_custom_type": true, "schema_one_of": true}
